@@ -689,3 +689,40 @@ def rebuild_interest_path(F, module="tracing_core::callsite::inner::"):
     c = [b.path for b in F.body_list if b.path.startswith(module) and "{closure" not in b.path and
          any((t["callee"].get("path") or "").endswith("LevelFilter::set_max") for bb, t in b.calls())]
     return c[0] if len(c) == 1 else module + "rebuild_interest"
+
+
+_REL = {"Lt": "<", "Le": "<=", "Gt": ">", "Ge": ">=", "Eq": "==", "Ne": "!="}
+_NEG = {"<": ">=", "<=": ">", ">": "<=", ">=": "<", "==": "!=", "!=": "=="}
+_SWAP = {">": "<", ">=": "<=", "<": "<", "<=": "<=", "==": "==", "!=": "!="}
+
+
+def relation_held(text, val):
+    """The comparison a guard (text of a `(A Op B)` condition, value taken on the edge) asserts, in one spelling:
+    (lhs, rel, rhs) with rel in {'<', '<=', '==', '!='}; `>`/`>=` are written with swapped sides and `==`/`!=` with the
+    sides in text order sorted, so `a < b` taken, `b > a` taken, `a >= b` not taken and `b <= a` not taken all agree.
+    None when the text is not a top-level binary comparison."""
+    if not (text.startswith("(") and text.endswith(")")) or val is None:
+        return None
+    depth = 0
+    inner = text[1:-1]
+    for i, ch in enumerate(inner):
+        if ch in "([{":
+            depth += 1
+        elif ch in ")]}":
+            depth -= 1
+            if depth < 0:
+                return None
+        elif ch == " " and depth == 0:
+            rest = inner[i + 1:]
+            sp = rest.find(" ")
+            if sp > 0 and rest[:sp] in _REL:
+                a, rel, b = inner[:i], _REL[rest[:sp]], rest[sp + 1:]
+                if val == 0:
+                    rel = _NEG[rel]
+                if rel in (">", ">="):
+                    a, b, rel = b, a, _SWAP[rel]
+                if rel in ("==", "!=") and b < a:
+                    a, b = b, a
+                return (a, rel, b)
+            return None
+    return None
